@@ -3250,6 +3250,10 @@ func genGoSrc(p *pkgInfo, out string) {
 		fmt.Fprintf(&b, "/-- `%s`, from `%s` to %s — %s:%d. Not translated (goroutine joins, modelled by contract): %s -/\ndef %s : FunDef := { recv := \"\", params := [], body := %s }\n\n",
 			bs.fn, bs.from, to, filepath.Base(pos.Filename), pos.Line, strings.ReplaceAll(strings.Join(skipped, " | "), "-/", "- /"), bs.lean, t.block(list, ""))
 	}
+	// --- framing: begin
+	genFraming(p, &b)
+	names = append(names, framingFuncs...)
+	// --- framing: end
 	sort.Strings(names)
 	b.WriteString("/-- the translated functions by name -/\ndef goFuns (n : String) : Option FunDef :=\n")
 	for _, fn := range names {
